@@ -8,7 +8,9 @@ import io
 import logging
 import os
 import re
+import shutil
 import sys
+import tempfile
 import textwrap
 from pathlib import Path
 from typing import Collection, Iterable, Mapping, Sequence
@@ -271,6 +273,32 @@ def format_code(
     return source
 
 
+def _write_file(filename: Path, content: str) -> None:
+    """Replace the content of a file, such that the file is either the old or the new one if writing fails.
+
+    The content goes to a temporary file beside it first, which then takes the place of the file. A
+    write that fails halfway (disk full, quota) would otherwise leave a truncated file behind.
+    """
+    try:
+        handle, temporary = tempfile.mkstemp(dir=filename.parent, prefix=f".{filename.name}.", suffix=".tmp")
+    except OSError:  # Cannot create files beside it. Write in place.
+        with open(filename, "w", encoding="utf-8") as stream:
+            stream.write(content)
+        return
+
+    try:
+        with open(handle, "w", encoding="utf-8") as stream:
+            stream.write(content)
+        shutil.copymode(filename, temporary)
+        os.replace(temporary, filename)
+    except BaseException:
+        try:
+            os.unlink(temporary)
+        except OSError:
+            pass
+        raise
+
+
 def format_file(filename: Path, preserve: Collection[str] = frozenset(), safe: bool = False) -> int:
     """Fix a file.
 
@@ -292,8 +320,7 @@ def format_file(filename: Path, preserve: Collection[str] = frozenset(), safe: b
         core.is_still_valid_python(initial_content, source)
         or not core.is_valid_python(initial_content)
     ):
-        with open(filename, "w", encoding="utf-8") as stream:
-            stream.write(source)
+        _write_file(filename, source)
 
         return True
 
